@@ -307,6 +307,53 @@ func c03Codec(c *fw.Ctx, idx int) {
 	g := c03Model(r)
 	m := wkbModes[r.Intn(len(wkbModes))]
 	c.SetInput(map[string]any{"geometry": g.String(), "mode": m.name})
+	c03CodecOn(c, g, m)
+}
+
+// c03Huge: coordinate arrays of 65,536 .. 1.2 million ordinates (on and next to
+// multiples of 65,536), as a linestring, as a ring after a small ring, as a
+// member of a multi-geometry; everything c03Codec checks
+func c03Huge(c *fw.Ctx, idx int) {
+	r := c.R
+	m := wkbModes[r.Intn(len(wkbModes))]
+	layout := gen.StdLayouts[r.Intn(4)]
+	stride := layout.Stride()
+	nbig := hugeFloats(r, stride) / stride
+	mk := func(n int) [][]float64 {
+		seq := make([][]float64, n)
+		for i := range seq {
+			co := make([]float64, stride)
+			for k := range co {
+				co[k] = float64((i*7+k*3)%100003) + 0.5
+			}
+			seq[i] = co
+		}
+		return seq
+	}
+	var g *model.G
+	how := ""
+	switch r.Intn(5) {
+	case 0:
+		g, how = &model.G{Kind: model.LineString, Layout: layout, C1: mk(nbig)}, "LineString"
+	case 1:
+		g, how = &model.G{Kind: model.Polygon, Layout: layout, C2: [][][]float64{mk(5), mk(nbig), mk(4)}}, "Polygon [small ring, large ring, small ring]"
+	case 2:
+		g, how = &model.G{Kind: model.MultiLineString, Layout: layout, C2: [][][]float64{mk(2), {}, mk(nbig)}}, "MultiLineString [small, empty, large]"
+	case 3:
+		g, how = &model.G{Kind: model.MultiPolygon, Layout: layout, C3: [][][][]float64{{mk(4)}, {mk(4), mk(nbig)}}}, "MultiPolygon [[small], [small, large]]"
+	default:
+		g, how = &model.G{Kind: model.MultiPoint, Layout: layout, C1: mk(nbig / 8)}, "MultiPoint"
+	}
+	if m.o.EWKB {
+		g.SRID = 4326
+	}
+	c.SetInput(map[string]any{"geometry": how, "layout": layout.String(), "coordinates_of_the_large_part": nbig, "mode": m.name, "ordinate_k_of_coordinate_i": "((7i+3k) mod 100003) + 0.5"})
+	c.Count("huge_" + strings.Fields(how)[0])
+	c03CodecOn(c, g, m)
+}
+
+func c03CodecOn(c *fw.Ctx, g *model.G, m wkbMode) {
+	r := c.R
 	t := g.BuildFlat()
 	want, fields, rerr := ref.WriteWKB(g, m.o)
 	c.Count("mode_" + m.name)
@@ -850,6 +897,7 @@ func init() {
 			{Name: "concatenated", Quick: 16000, Thorough: 300000, Run: c03Concat},
 			{Name: "sql", Quick: 24000, Thorough: 400000, Run: c03SQL},
 			{Name: "unsupported-layout", Quick: 2000, Thorough: 20000, Run: c03Unsupported},
+			{Name: "huge", Quick: 20, Thorough: 400, Chunk: 1, Run: c03Huge},
 		},
 		Require: []string{"bytes_compared", "mode_wkb-ndr", "mode_wkb-xdr", "mode_wkb-nan-ndr", "mode_ewkb-ndr", "mode_ewkb-xdr", "empty_point_rejected_in_wkb_error_mode", "encoded_with_empty_point",
 			"reader_split_pattern_0", "reader_split_pattern_3", "writer_failure_positions", "hex_roundtrips", "concatenations", "sql_scan_matching", "sql_scan_wrong_type", "sql_non_bytes_rejected", "unsupported_layout_cases", "held_results_rechecked"},
